@@ -15,11 +15,11 @@ import (
 func init() {
 	Register(&Rule{
 		ID: "C29", Section: "5 C29",
-		Technique: "who-may-write census (Request.ClientAddr, the TCPAddr objects behind ClientAddr/RemoteAddr, Session.isTrustSource, Session/Request.RemoteAddr, bfe_http.Request.RemoteAddr), who-may-call census (parseClientAddr, setClientAddr, SetTrustSource, setHeaderRealAddr), control dependence of header-derived stores on Session.TrustSource(), witness-path analysis of setClientAddr, backward value flow for the X-Real-*/X-Forwarded-For values, string-constant census of X-Real-Ip/X-Real-Port",
+		Technique: "who-may-write census (Request.ClientAddr, the TCPAddr objects behind ClientAddr/RemoteAddr, Session.isTrustSource, Session/Request.RemoteAddr, bfe_http.Request.RemoteAddr), who-may-call census (parseClientAddr, setClientAddr, SetTrustSource, setHeaderRealAddr), control dependence of header-derived stores on Session.TrustSource(), witness-path analysis of setClientAddr, backward value flow for the X-Real-*/X-Forwarded-For values, string-constant census of X-Real-Ip/X-Real-Port, key classification (constant / constant table / computed-and-compared) of every request-header deletion after mod_header's callback",
 		Meta: core.Meta{
 			Level:       "other",
-			Explanation: "Decides: (a) Request.ClientAddr is written only by bfe_server.setClientAddr and parseClientAddr; in setClientAddr every path that did not see req.Session.TrustSource() == true stores req.RemoteAddr into req.ClientAddr and nothing can overwrite it afterwards; every other non-nil store and every parseClientAddr call is control-dependent on TrustSource() == true of the request's own session; parseClientAddr is called only from setClientAddr and writes IP/Port only into a TCPAddr it allocated itself (never into the shared socket address object); nobody else writes through ClientAddr/RemoteAddr; setClientAddr is called only from ReverseProxy.ServeHTTP and dominates every module callback and clusterInvoke there; (b) Session.isTrustSource is touched only by Session.TrustSource/SetTrustSource, TrustSource() is `flag == SessionTrustSource` and SetTrustSource stores that constant only under its argument being true; SetTrustSource is called only by mod_trust_clientip's accept handler with the result of IPTable.Search(session.RemoteAddr.IP) of the same session; Session.RemoteAddr is written only by NewSession from conn.RemoteAddr(), Request.RemoteAddr only by NewRequest from the session it stores; (c) mod_header: setHeaderRealAddr is called only by setDefaultHeader with values derived from request.ClientAddr (IP.String(), Itoa(Port)) and writes X-Real-Ip / X-Real-Port with Header.Set (overwrite) from exactly those parameters; setDefaultHeader skips it only when ClientAddr == nil; the X-Forwarded-For value set by modHeaderForwardedAddr ends with the host part of HttpRequest.RemoteAddr, which is written only from the connection's RemoteAddr().String(); no other function of the module mentions the X-Real-Ip / X-Real-Port names. Not covered: module ordering at run time (mod_trust_clientip must run at accept), the disableDefaultHeader switch, header rules of mod_header that a configuration may add, correctness of IPTable.Search, ClientAddr == nil for a trusted peer that sent no usable header (the client's X-Real-Ip then passes through).",
-			RuleText:    "obligations = each writer of the listed fields, each caller of the listed functions, each store/call in setClientAddr and parseClientAddr, each X-Real-*/X-Forwarded-For header write of mod_header, each function mentioning the X-Real-* names",
+			Explanation: "Decides: (a) Request.ClientAddr is written only by bfe_server.setClientAddr and parseClientAddr; in setClientAddr every path that did not see req.Session.TrustSource() == true stores req.RemoteAddr into req.ClientAddr and nothing can overwrite it afterwards; every other non-nil store and every parseClientAddr call is control-dependent on TrustSource() == true of the request's own session; parseClientAddr is called only from setClientAddr and writes IP/Port only into a TCPAddr it allocated itself (never into the shared socket address object); nobody else writes through ClientAddr/RemoteAddr; setClientAddr is called only from ReverseProxy.ServeHTTP and dominates every module callback and clusterInvoke there; (b) Session.isTrustSource is touched only by Session.TrustSource/SetTrustSource, TrustSource() is `flag == SessionTrustSource` and SetTrustSource stores that constant only under its argument being true; SetTrustSource is called only by mod_trust_clientip's accept handler with the result of IPTable.Search(session.RemoteAddr.IP) of the same session; Session.RemoteAddr is written only by NewSession from conn.RemoteAddr(), Request.RemoteAddr only by NewRequest from the session it stores; (c) mod_header: setHeaderRealAddr is called only by setDefaultHeader with values derived from request.ClientAddr (IP.String(), Itoa(Port)) and writes X-Real-Ip / X-Real-Port with Header.Set (overwrite) from exactly those parameters; setDefaultHeader skips it only when ClientAddr == nil; the X-Forwarded-For value set by modHeaderForwardedAddr ends with the host part of HttpRequest.RemoteAddr, which is written only from the connection's RemoteAddr().String(); no other function of the module mentions the X-Real-Ip / X-Real-Port names. (d) the headers mod_header wrote survive: in ReverseProxy.ServeHTTP and the bfe_server helpers it calls after the HandleAfterLocation callback, every Header.Del / delete on a request header takes a constant or an element of a constant table that does not name X-Real-Ip / X-Real-Port / X-Forwarded-For, or a computed key that was compared against all three names (a key taken from the client's Connection header cannot strip them). Not covered: module ordering at run time (mod_trust_clientip must run at accept), modules that run in HandleForward after mod_header, the disableDefaultHeader switch, header rules of mod_header that a configuration may add, correctness of IPTable.Search, ClientAddr == nil for a trusted peer that sent no usable header (the client's X-Real-Ip then passes through).",
+			RuleText:    "obligations = each writer of the listed fields, each caller of the listed functions, each store/call in setClientAddr and parseClientAddr, each X-Real-*/X-Forwarded-For header write of mod_header, each function mentioning the X-Real-* names, each request-header deletion between the HandleAfterLocation callback and the backend send",
 			Assumptions: []string{"net.TCPAddr values reachable from Session.RemoteAddr are not mutated through other aliases (the census covers the three access paths ClientAddr, Request.RemoteAddr, Session.RemoteAddr)"},
 		},
 		Run: runC29,
@@ -36,6 +36,9 @@ func init() {
 			{Name: "parse-writes-shared-addr", File: "bfe_server/set_client_addr.go", Old: "		req.ClientAddr = new(net.TCPAddr)\n		req.ClientAddr.IP = ip", New: "		if req.ClientAddr == nil {\n			req.ClientAddr = new(net.TCPAddr)\n		}\n		req.ClientAddr.IP = ip", Expect: "fresh-object"},
 			{Name: "foreign-clientaddr-writer", File: "bfe_server/reverseproxy.go", Old: "	setClientAddr(basicReq)\n", New: "	setClientAddr(basicReq)\n	if basicReq.ClientAddr == nil {\n		basicReq.ClientAddr = &net.TCPAddr{}\n	}\n", Expect: "clientaddr-writers"},
 			{Name: "peer-string-from-header", File: "bfe_server/http_conn.go", Old: "	req.RemoteAddr = c.remoteAddr\n", New: "	req.RemoteAddr = c.remoteAddr\n	if v := req.Header.Get(\"X-Peer\"); v != \"\" {\n		req.RemoteAddr = v\n	}\n", Expect: "peer-string-writers"},
+			{Name: "connection-options-strip-real-addr", File: "bfe_server/reverseproxy.go", Old: "	hopByHopHeaderRemove(outreq, req)\n", New: "	hopByHopHeaderRemove(outreq, req)\n	for _, opt := range req.Header[\"Connection\"] {\n		outreq.Header.Del(opt)\n	}\n", Expect: "real-addr-survives|"},
+			{Name: "hop-table-lists-forwarded-for", File: "bfe_basic/common.go", Old: "	\"Transfer-Encoding\",\n	\"Upgrade\",\n}", New: "	\"Transfer-Encoding\",\n	\"Upgrade\",\n	\"X-Forwarded-For\",\n}", Expect: "real-addr-survives|"},
+			{Name: "silent-del-through-helper", Silent: true, File: "bfe_server/reverseproxy.go", Old: "		outreq.Header.Del(h)\n	}\n}", New: "		dropHopHeader(outreq, h)\n	}\n}\n\nfunc dropHopHeader(r *bfe_http.Request, name string) {\n	r.Header.Del(name)\n}"},
 			{Name: "silent-locals", Silent: true, File: "bfe_server/set_client_addr.go", Old: "	if !req.Session.TrustSource() { // request not from upstream bfe server\n		req.ClientAddr = req.RemoteAddr\n		return\n	}\n", New: "	trusted := req.Session.TrustSource()\n	if !trusted {\n		peer := req.RemoteAddr\n		req.ClientAddr = peer\n		return\n	}\n"},
 		},
 	})
@@ -509,6 +512,8 @@ func runC29(c *core.Ctx) {
 		}
 		c.Min("peer-string-writers", 4)
 	}
+	// the headers written by mod_header survive to the backend
+	c29RealAddrSurvives(c, serve)
 	// who mentions the X-Real-* names
 	n = map[string]int{}
 	allowed := map[*ssa.Function]bool{setCA: true}
@@ -535,4 +540,191 @@ func runC29(c *core.Ctx) {
 		c.Check("real-name-census", h1bOrd(core.FuncKey(fn), n), fn.Pos(), allowed[fn], core.FuncKey(fn)+" mentions the header name "+hit+"; only setClientAddr (reads it under the trusted-source gate) and setHeaderRealAddr (overwrites it) are reviewed")
 	}
 	c.Min("real-name-census", 2)
+}
+
+// c29RealAddrSurvives: mod_header writes X-Real-Ip / X-Real-Port /
+// X-Forwarded-For from the socket address in the HandleAfterLocation callback
+// of ReverseProxy.ServeHTTP. Between that callback and the backend send, every
+// deletion on a request header (Header.Del / delete) is an obligation: its key
+// must be a constant or an element of a constant table, none of them one of
+// the three names - or, when the key is computed (e.g. taken from the client's
+// Connection header), `key != name` must be established for all three names
+// where the deletion happens. A key bound to a helper's parameter is
+// classified at the helper's call sites.
+func c29RealAddrSurvives(c *core.Ctx, serve *ssa.Function) {
+	const srv = "bfe_server"
+	const rule = "real-addr-survives"
+	if serve == nil {
+		return
+	}
+	reqHeader := h1bField(c, "bfe_http", "Request.Header")
+	var protected []string
+	for _, name := range []string{"HeaderRealIP", "HeaderRealPort", "HeaderForwardedFor"} {
+		k, _ := c.P.Obj("bfe_basic", name).(*types.Const)
+		if k == nil {
+			c.Missing("bfe_basic." + name)
+			return
+		}
+		if v, ok := core.ConstString(ssa.NewConst(k.Val(), k.Type())); ok {
+			protected = append(protected, h1bCanonical(v))
+		}
+	}
+	point, _ := c.P.Obj("bfe_module", "HandleAfterLocation").(*types.Const)
+	if reqHeader == nil || point == nil || len(protected) != 3 {
+		c.Missing("bfe_module.HandleAfterLocation / bfe_http.Request.Header")
+		return
+	}
+	pv, _ := h1bConstInt(ssa.NewConst(point.Val(), point.Type()))
+	isProtected := func(s string) bool {
+		for _, p := range protected {
+			if h1bCanonical(s) == p {
+				return true
+			}
+		}
+		return false
+	}
+	// the callback that runs mod_header's request handler
+	var cb ssa.Instruction
+	for _, ci := range core.Calls(serve, "bfe_module.HandlerList.FilterRequest") {
+		if len(ci.Common().Args) < 1 {
+			continue
+		}
+		if get := h1bCallOf(h1aResolve(ci.Common().Args[0]), "bfe_module.BfeCallbacks.GetHandlerList"); get != nil && len(get.Call.Args) == 2 && h1bIsInt(pv)(get.Call.Args[1]) {
+			cb = ci.(ssa.Instruction)
+		}
+	}
+	if cb == nil {
+		c.Missing("ReverseProxy.ServeHTTP: FilterRequest call on GetHandlerList(HandleAfterLocation)")
+		return
+	}
+	c.Check(rule, "ServeHTTP:after-location-callback", cb.Pos(), true, "")
+	after := func(in ssa.Instruction) bool {
+		return core.ReachAvoiding(serve, cb, nil, func(x ssa.Instruction) bool { return x == in }) != nil
+	}
+	// functions that run after the callback: ServeHTTP itself (the part reachable
+	// from the callback) and the bfe_server helpers called from there, two levels deep
+	type scoped struct {
+		fn    *ssa.Function
+		whole bool
+	}
+	scope := []scoped{{serve, false}}
+	seenFn := map[*ssa.Function]bool{serve: true}
+	for _, ci := range core.AllCalls(serve) {
+		sc := ci.Common().StaticCallee()
+		if sc == nil || sc.Blocks == nil || core.FuncPkgRel(sc) != srv || !after(ci.(ssa.Instruction)) {
+			continue
+		}
+		for _, f := range core.TransitiveCallees(sc, 2) {
+			if core.FuncPkgRel(f) == srv && !seenFn[f] {
+				seenFn[f] = true
+				scope = append(scope, scoped{f, true})
+			}
+		}
+	}
+	all := c.P.SrcFuncs("")
+	var classify func(v ssa.Value, at *ssa.BasicBlock, fn *ssa.Function, d int) (bool, string)
+	classify = func(v ssa.Value, at *ssa.BasicBlock, fn *ssa.Function, d int) (bool, string) {
+		v = core.StripConv(v)
+		if s, ok := core.ConstString(v); ok {
+			return !isProtected(s), fmt.Sprintf("the constant %q", s)
+		}
+		if pk, name, ok := sh1GlobalElem(v); ok {
+			vals, _, okT := h1bStringTable(c, pk, name)
+			if !okT {
+				return false, "an element of " + pk + "." + name + ", which is not a literal of constant strings"
+			}
+			for _, s := range vals {
+				if isProtected(s) {
+					return false, fmt.Sprintf("an element of %s.%s, which lists %q", pk, name, s)
+				}
+			}
+			return true, "an element of the constant table " + pk + "." + name
+		}
+		if d < 3 {
+			if phi, ok := v.(*ssa.Phi); ok {
+				for _, e := range phi.Edges {
+					if ok, why := classify(e, at, fn, d+1); !ok {
+						return false, why
+					}
+				}
+				return true, "constants"
+			}
+			if prm, ok := v.(*ssa.Parameter); ok && fn != serve {
+				idx := -1
+				for i, q := range fn.Params {
+					if q == prm {
+						idx = i
+					}
+				}
+				callers := h1bStaticCallers(all, fn)
+				if idx >= 0 && len(callers) > 0 && len(h1bFuncValueUses(all, fn)) == 0 {
+					for _, ci := range callers {
+						if idx >= len(ci.Common().Args) {
+							return false, "a parameter whose call sites cannot be followed"
+						}
+						if ok, why := classify(ci.Common().Args[idx], ci.Block(), ci.Parent(), d+1); !ok {
+							return false, why + " (passed by " + core.FuncKey(ci.Parent()) + ")"
+						}
+					}
+					return true, "a parameter bound to constants at every call site"
+				}
+			}
+		}
+		// computed key: must be compared against each protected name
+		isKey := func(x ssa.Value) bool {
+			x = core.StripConv(x)
+			if x == v {
+				return true
+			}
+			if call, ok := x.(*ssa.Call); ok && core.CallIs(&call.Call, "bfe_http.CanonicalHeaderKey", "bfe_net/textproto.CanonicalMIMEHeaderKey") && len(call.Call.Args) == 1 {
+				return core.StripConv(call.Call.Args[0]) == v
+			}
+			return false
+		}
+		for _, p := range protected {
+			if !h1bGuarded(at, func(f h1bFact) bool {
+				return h1bNe(f, isKey, func(y ssa.Value) bool { s, ok := core.ConstString(y); return ok && h1bCanonical(s) == p })
+			}) {
+				src := ""
+				if h1bDerives(v, func(x ssa.Value) bool {
+					if call, ok := x.(*ssa.Call); ok && core.CallIs(&call.Call, "bfe_http.Header.Get", "bfe_http.Header.GetDirect", "bfe_http.Header.Values") {
+						return true
+					}
+					lk, ok := x.(*ssa.Lookup)
+					return ok && core.TypeStr(lk.X.Type()) == "bfe_http.Header"
+				}, nil) {
+					src = " (it derives from a request header value, i.e. it is chosen by the peer)"
+				}
+				return false, "the computed value " + core.Render(v) + src + ", not compared against " + p
+			}
+		}
+		return true, "a computed key compared against the protected names"
+	}
+	n := map[string]int{}
+	for _, sf := range scope {
+		fn := sf.fn
+		for _, ci := range core.AllCalls(fn) {
+			cc := ci.Common()
+			var target, key ssa.Value
+			if core.CallIs(cc, "bfe_http.Header.Del", "bfe_net/textproto.MIMEHeader.Del") && len(cc.Args) == 2 {
+				target, key = cc.Args[0], cc.Args[1]
+			} else if b, isB := cc.Value.(*ssa.Builtin); isB && b.Name() == "delete" && len(cc.Args) == 2 {
+				target, key = cc.Args[0], cc.Args[1]
+			}
+			if key == nil {
+				continue
+			}
+			if f, _ := h1bFieldOf(target); f != reqHeader {
+				continue
+			}
+			if !sf.whole && !after(ci.(ssa.Instruction)) {
+				continue
+			}
+			c.Analysed(core.FuncKey(fn))
+			ok, why := classify(key, ci.Block(), fn, 0)
+			c.Check(rule, h1bOrd(core.FuncKey(fn)+":del", n), ci.Pos(), ok,
+				"after mod_header wrote X-Real-Ip / X-Real-Port / X-Forwarded-For from the socket address (HandleAfterLocation callback) and before the request is sent to the backend, "+core.FuncKey(fn)+" deletes a request header field whose name is "+why+": an untrusted peer can have the address headers BFE set removed from the forwarded request (e.g. `Connection: X-Real-Ip, X-Forwarded-For`), so the backend no longer receives the peer's socket address")
+		}
+	}
+	c.Min(rule, 1)
 }
